@@ -41,6 +41,249 @@ pub enum Input {
     Pairs { pairs: Vec<(u64, i32)>, via: Via },
     /// the serialization of the queue built by pushing `pairs`, then damaged
     Mutated { pairs: Vec<(u32, i32, u32)>, src: Kind, faults: Vec<StorageFault> },
+    /// a length-prefixed binary image (u64 count, then 12-byte records) of `pairs`, damaged, and
+    /// read back by a deserializer that reports the stored count as its length hint — what
+    /// bincode / MessagePack-style formats do
+    /// `src`: None = the image is written by the harness from `pairs` as they are (repeats
+    /// possible); Some(kind) = a queue of that kind is built by pushing `pairs` and writes the
+    /// image itself through its `Serialize` impl (round trip checked before the damage)
+    Framed { pairs: Vec<(u64, i32)>, faults: Vec<FrameFault>, #[serde(default)] src: Option<Kind> },
+}
+
+#[derive(Clone, Copy, Debug, PartialEq, Eq, Serialize, Deserialize)]
+pub enum FrameFault {
+    /// the count field is overwritten (torn or foreign header)
+    Count(u64),
+    Truncate(usize),
+    BitFlip(usize, u8),
+    /// flip one bit of the count field
+    CountBit(u8),
+}
+
+pub fn frame_image(pairs: &[(u64, i32)], faults: &[FrameFault]) -> Vec<u8> {
+    let mut v: Vec<u8> = Vec::with_capacity(8 + 12 * pairs.len());
+    v.extend_from_slice(&(pairs.len() as u64).to_le_bytes());
+    for (k, p) in pairs {
+        v.extend_from_slice(&k.to_le_bytes());
+        v.extend_from_slice(&p.to_le_bytes());
+    }
+    frame_damage(v, faults)
+}
+
+pub fn frame_damage(mut v: Vec<u8>, faults: &[FrameFault]) -> Vec<u8> {
+    for f in faults {
+        match *f {
+            FrameFault::Count(c) if v.len() >= 8 => v[..8].copy_from_slice(&c.to_le_bytes()),
+            FrameFault::CountBit(b) if v.len() >= 8 => v[(b as usize % 64) / 8] ^= 1 << (b % 8),
+            FrameFault::Count(_) | FrameFault::CountBit(_) => {}
+            FrameFault::Truncate(n) => {
+                let l = v.len();
+                v.truncate(l - (n % (l + 1)).min(l));
+            }
+            FrameFault::BitFlip(at, bit) => {
+                if !v.is_empty() {
+                    let l = v.len();
+                    v[at % l] ^= 1 << (bit % 8);
+                }
+            }
+        }
+    }
+    v
+}
+
+/// (stored count, complete records present) of an image, read independently of the crate
+pub fn frame_parse(img: &[u8]) -> Option<(u64, Vec<(u64, i32)>)> {
+    if img.len() < 8 {
+        return None;
+    }
+    let c = u64::from_le_bytes(img[..8].try_into().unwrap());
+    let recs = img[8..].chunks_exact(12).map(|r| (u64::from_le_bytes(r[..8].try_into().unwrap()), i32::from_le_bytes(r[8..].try_into().unwrap()))).collect();
+    Some((c, recs))
+}
+
+mod framed {
+    //! The reader of the simulated length-prefixed storage format.
+    use serde::de::value::Error as ValueError;
+    use serde::de::{DeserializeSeed, Deserializer, Error, IntoDeserializer, SeqAccess, Visitor};
+    use serde::forward_to_deserialize_any;
+
+    pub struct FramedDe<'a>(pub &'a [u8]);
+    struct Records<'a> {
+        rest: &'a [u8],
+        remaining: u64,
+    }
+    struct Rec(u64, i32, u8);
+
+    impl<'de, 'a> Deserializer<'de> for FramedDe<'a> {
+        type Error = ValueError;
+        fn deserialize_any<V: Visitor<'de>>(self, v: V) -> Result<V::Value, ValueError> {
+            if self.0.len() < 8 {
+                return Err(ValueError::custom("unexpected end of input in the count field"));
+            }
+            let c = u64::from_le_bytes(self.0[..8].try_into().unwrap());
+            v.visit_seq(Records { rest: &self.0[8..], remaining: c })
+        }
+        forward_to_deserialize_any! { bool i8 i16 i32 i64 i128 u8 u16 u32 u64 u128 f32 f64 char str string bytes byte_buf option unit unit_struct newtype_struct seq tuple tuple_struct map struct enum identifier ignored_any }
+    }
+    impl<'de, 'a> SeqAccess<'de> for Records<'a> {
+        type Error = ValueError;
+        fn next_element_seed<T: DeserializeSeed<'de>>(&mut self, seed: T) -> Result<Option<T::Value>, ValueError> {
+            if self.remaining == 0 {
+                return Ok(None);
+            }
+            if self.rest.len() < 12 {
+                return Err(ValueError::custom("unexpected end of input in a record"));
+            }
+            let k = u64::from_le_bytes(self.rest[..8].try_into().unwrap());
+            let p = i32::from_le_bytes(self.rest[8..12].try_into().unwrap());
+            self.rest = &self.rest[12..];
+            self.remaining -= 1;
+            seed.deserialize(Rec(k, p, 0)).map(Some)
+        }
+        fn size_hint(&self) -> Option<usize> {
+            Some(usize::try_from(self.remaining).unwrap_or(usize::MAX))
+        }
+    }
+    impl<'de> Deserializer<'de> for Rec {
+        type Error = ValueError;
+        fn deserialize_any<V: Visitor<'de>>(self, v: V) -> Result<V::Value, ValueError> {
+            v.visit_seq(self)
+        }
+        forward_to_deserialize_any! { bool i8 i16 i32 i64 i128 u8 u16 u32 u64 u128 f32 f64 char str string bytes byte_buf option unit unit_struct newtype_struct seq tuple tuple_struct map struct enum identifier ignored_any }
+    }
+    impl<'de> SeqAccess<'de> for Rec {
+        type Error = ValueError;
+        fn next_element_seed<T: DeserializeSeed<'de>>(&mut self, seed: T) -> Result<Option<T::Value>, ValueError> {
+            self.2 += 1;
+            match self.2 {
+                1 => seed.deserialize(IntoDeserializer::<ValueError>::into_deserializer(self.0)).map(Some),
+                2 => seed.deserialize(IntoDeserializer::<ValueError>::into_deserializer(self.1)).map(Some),
+                _ => Ok(None),
+            }
+        }
+        fn size_hint(&self) -> Option<usize> {
+            Some(2usize.saturating_sub(self.2 as usize))
+        }
+    }
+}
+
+mod framed_ser {
+    //! The writer of the simulated length-prefixed storage format: like bincode it needs the
+    //! sequence length up front and writes what `serialize_seq` was told, then the elements.
+    use serde::de::value::Error as ValueError;
+    use serde::ser::{Error, Impossible, Serialize, SerializeSeq, SerializeTuple, Serializer};
+
+    pub struct Top;
+    pub struct Seq {
+        out: Vec<u8>,
+    }
+    struct Rec<'a>(&'a mut Vec<u8>);
+    struct Scalar<'a>(&'a mut Vec<u8>);
+
+    macro_rules! unsupported {
+        ($($m:ident($($t:ty),*);)*) => { $(fn $m(self $(, _: $t)*) -> Result<Self::Ok, ValueError> { Err(ValueError::custom(concat!("framed format: unsupported ", stringify!($m)))) })* };
+    }
+    macro_rules! common {
+        () => {
+            type Error = ValueError;
+            type SerializeTupleStruct = Impossible<Self::Ok, ValueError>;
+            type SerializeTupleVariant = Impossible<Self::Ok, ValueError>;
+            type SerializeMap = Impossible<Self::Ok, ValueError>;
+            type SerializeStruct = Impossible<Self::Ok, ValueError>;
+            type SerializeStructVariant = Impossible<Self::Ok, ValueError>;
+            unsupported! { serialize_bool(bool); serialize_i8(i8); serialize_i16(i16); serialize_i64(i64); serialize_u8(u8); serialize_u16(u16); serialize_u32(u32); serialize_f32(f32); serialize_f64(f64); serialize_char(char); serialize_str(&str); serialize_bytes(&[u8]); serialize_none(); serialize_unit(); serialize_unit_struct(&'static str); serialize_unit_variant(&'static str, u32, &'static str); }
+            fn serialize_some<T: ?Sized + Serialize>(self, _: &T) -> Result<Self::Ok, ValueError> { Err(ValueError::custom("framed format: unsupported option")) }
+            fn serialize_newtype_struct<T: ?Sized + Serialize>(self, _: &'static str, _: &T) -> Result<Self::Ok, ValueError> { Err(ValueError::custom("framed format: unsupported newtype")) }
+            fn serialize_newtype_variant<T: ?Sized + Serialize>(self, _: &'static str, _: u32, _: &'static str, _: &T) -> Result<Self::Ok, ValueError> { Err(ValueError::custom("framed format: unsupported variant")) }
+            fn serialize_tuple_struct(self, _: &'static str, _: usize) -> Result<Self::SerializeTupleStruct, ValueError> { Err(ValueError::custom("framed format: unsupported")) }
+            fn serialize_tuple_variant(self, _: &'static str, _: u32, _: &'static str, _: usize) -> Result<Self::SerializeTupleVariant, ValueError> { Err(ValueError::custom("framed format: unsupported")) }
+            fn serialize_map(self, _: Option<usize>) -> Result<Self::SerializeMap, ValueError> { Err(ValueError::custom("framed format: unsupported")) }
+            fn serialize_struct(self, _: &'static str, _: usize) -> Result<Self::SerializeStruct, ValueError> { Err(ValueError::custom("framed format: unsupported")) }
+            fn serialize_struct_variant(self, _: &'static str, _: u32, _: &'static str, _: usize) -> Result<Self::SerializeStructVariant, ValueError> { Err(ValueError::custom("framed format: unsupported")) }
+        };
+    }
+
+    impl Serializer for Top {
+        type Ok = Vec<u8>;
+        type SerializeSeq = Seq;
+        type SerializeTuple = Impossible<Vec<u8>, ValueError>;
+        common!();
+        unsupported! { serialize_i32(i32); serialize_u64(u64); }
+        fn serialize_seq(self, len: Option<usize>) -> Result<Seq, ValueError> {
+            let len = len.ok_or_else(|| ValueError::custom("framed format: the sequence length is required up front"))?;
+            Ok(Seq { out: (len as u64).to_le_bytes().to_vec() })
+        }
+        fn serialize_tuple(self, _: usize) -> Result<Self::SerializeTuple, ValueError> {
+            Err(ValueError::custom("framed format: a sequence was expected"))
+        }
+    }
+    impl SerializeSeq for Seq {
+        type Ok = Vec<u8>;
+        type Error = ValueError;
+        fn serialize_element<T: ?Sized + Serialize>(&mut self, v: &T) -> Result<(), ValueError> {
+            v.serialize(Rec(&mut self.out))
+        }
+        fn end(self) -> Result<Vec<u8>, ValueError> {
+            Ok(self.out)
+        }
+    }
+    impl<'a> Serializer for Rec<'a> {
+        type Ok = ();
+        type SerializeSeq = Impossible<(), ValueError>;
+        type SerializeTuple = Self;
+        common!();
+        unsupported! { serialize_i32(i32); serialize_u64(u64); }
+        fn serialize_seq(self, _: Option<usize>) -> Result<Self::SerializeSeq, ValueError> {
+            Err(ValueError::custom("framed format: a record was expected"))
+        }
+        fn serialize_tuple(self, n: usize) -> Result<Self, ValueError> {
+            if n != 2 {
+                return Err(ValueError::custom("framed format: a record has two fields"));
+            }
+            Ok(self)
+        }
+    }
+    impl<'a> SerializeTuple for Rec<'a> {
+        type Ok = ();
+        type Error = ValueError;
+        fn serialize_element<T: ?Sized + Serialize>(&mut self, v: &T) -> Result<(), ValueError> {
+            v.serialize(Scalar(self.0))
+        }
+        fn end(self) -> Result<(), ValueError> {
+            Ok(())
+        }
+    }
+    impl<'a> Serializer for Scalar<'a> {
+        type Ok = ();
+        type SerializeSeq = Impossible<(), ValueError>;
+        type SerializeTuple = Impossible<(), ValueError>;
+        common!();
+        fn serialize_u64(self, v: u64) -> Result<(), ValueError> {
+            self.0.extend_from_slice(&v.to_le_bytes());
+            Ok(())
+        }
+        fn serialize_i32(self, v: i32) -> Result<(), ValueError> {
+            self.0.extend_from_slice(&v.to_le_bytes());
+            Ok(())
+        }
+        fn serialize_seq(self, _: Option<usize>) -> Result<Self::SerializeSeq, ValueError> {
+            Err(ValueError::custom("framed format: a scalar was expected"))
+        }
+        fn serialize_tuple(self, _: usize) -> Result<Self::SerializeTuple, ValueError> {
+            Err(ValueError::custom("framed format: a scalar was expected"))
+        }
+    }
+}
+
+fn ser_framed(q: &AnyQ) -> Result<Result<Vec<u8>, String>, Caught> {
+    guarded(|| both!(q, x => x.serialize(framed_ser::Top)).map_err(|e| e.to_string()))
+}
+
+fn de_framed(kind: Kind, img: &[u8]) -> Result<Result<AnyQ, String>, Caught> {
+    guarded(|| match kind {
+        Kind::Pq => PQ::deserialize(framed::FramedDe(img)).map(AnyQ::Pq).map_err(|e| e.to_string()),
+        Kind::Dpq => DPQ::deserialize(framed::FramedDe(img)).map(AnyQ::Dpq).map_err(|e| e.to_string()),
+    })
 }
 
 #[derive(Clone, Debug, Serialize, Deserialize)]
@@ -200,6 +443,77 @@ pub fn run_serde_case(b: &SerdeBody) -> SerdeOut {
                 }
             }
         }
+        Input::Framed { pairs, faults, src } => {
+            let img = match src {
+                None => frame_image(pairs, faults),
+                Some(sk) => {
+                    let mut q0 = construct(*sk, Ctor::WithHasher);
+                    for (k, p) in pairs {
+                        q0.push(Key::new(*k as u32, (*k >> 32) as u32), Prio::new(*p));
+                    }
+                    let clean = match ser_framed(&q0) {
+                        Err(e) => return panic_fail(e, "serializing a queue into the length-prefixed format".into()),
+                        Ok(Err(e)) => return SerdeOut { fail: Some(fail("roundtrip_err", format!("serializing a queue of {} elements into the length-prefixed format failed: {}", q0.len(), e))), outcome: "invalid" },
+                        Ok(Ok(v)) => v,
+                    };
+                    let shown: String = clean.iter().take(48).map(|b| format!("{:02x}", b)).collect();
+                    match de_framed(b.kind, &clean) {
+                        Err(e) => return panic_fail(e, format!("a queue's own length-prefixed serialization {}", shown)),
+                        Ok(Err(e)) => return SerdeOut { fail: Some(fail("roundtrip_err", format!("a queue of {} elements wrote the length-prefixed image {}… ({} bytes); reading it back failed: {}", q0.len(), shown, clean.len(), e))), outcome: "invalid" },
+                        Ok(Ok(q1)) => {
+                            if let Some((c, m)) = validity(&q1) {
+                                return SerdeOut { fail: Some(fail(c, format!("round trip through the length-prefixed format: {}", m))), outcome: "invalid" };
+                            }
+                            let mut a = q1.contents();
+                            let mut b0 = q0.contents();
+                            a.sort();
+                            b0.sort();
+                            if a != b0 {
+                                return SerdeOut { fail: Some(fail("roundtrip_contents", format!("round trip through the length-prefixed format changed the contents: {:?} -> {:?} (image {}…)", b0, a, shown))), outcome: "invalid" };
+                            }
+                            if b.kind == *sk && !(q1.eq_q(&q0) && q0.eq_q(&q1)) {
+                                return SerdeOut { fail: Some(fail("roundtrip_eq", "deserialize(serialize(q)) != q (length-prefixed format)".into())), outcome: "invalid" };
+                            }
+                        }
+                    }
+                    frame_damage(clean, faults)
+                }
+            };
+            let hex: String = img.iter().take(64).map(|b| format!("{:02x}", b)).collect();
+            let what = format!("the length-prefixed image {}{} ({} bytes)", hex, if img.len() > 64 { "…" } else { "" }, img.len());
+            if track_level() >= 2 {
+                track_line(2, &format!("FRAMED count field = {:?}", frame_parse(&img).map(|x| x.0)));
+            }
+            match de_framed(b.kind, &img) {
+                Err(e) => {
+                    let mut o = panic_fail(e, what);
+                    if let (Some(f), Some((c, recs))) = (o.fail.as_mut(), frame_parse(&img)) {
+                        if c > recs.len() as u64 {
+                            f.class = "de_panic_length_hint".into();
+                            f.msg = format!("{} [the stored count {} exceeds the {} records present]", f.msg, c, recs.len());
+                        }
+                    }
+                    o
+                }
+                Ok(Err(_)) => SerdeOut { fail: None, outcome: "err" },
+                Ok(Ok(q)) => {
+                    if let Some((c, m)) = validity(&q) {
+                        return SerdeOut { fail: Some(fail(c, format!("{}: {}", what, m))), outcome: "invalid" };
+                    }
+                    let (c, recs) = frame_parse(&img).unwrap_or((0, Vec::new()));
+                    let read = &recs[..(c.min(recs.len() as u64)) as usize];
+                    let mut given: BTreeMap<u32, Vec<i32>> = BTreeMap::new();
+                    for (k, p) in read {
+                        given.entry(*k as u32).or_default().push(*p);
+                    }
+                    let got: BTreeMap<u32, i32> = q.contents().iter().map(|x| (x.0, x.1)).collect();
+                    if got.len() != given.len() || got.iter().any(|(k, p)| !given.get(k).map_or(false, |v| v.contains(p))) {
+                        return SerdeOut { fail: Some(fail("de_contents", format!("{}: deserialized contents {:?} are not 'every distinct item of the {} records read, once, with one of its priorities'", what, got, read.len()))), outcome: "invalid" };
+                    }
+                    SerdeOut { fail: None, outcome: if faults.is_empty() { "ok" } else { "ok_damaged" } }
+                }
+            }
+        }
         Input::Mutated { pairs, src, faults } => {
             let mut q0 = construct(*src, Ctor::WithHasher);
             for (k, p, pl) in pairs {
@@ -294,11 +608,11 @@ impl Engine for SerdeEngine {
         EngineInfo {
             level: "exploration",
             unit: "deserialization cases (input sequence or damaged serialization, target kind, transport)",
-            rule: "half of the cases are arbitrary well-typed pair sequences over universes of 1..12 items (so that repeats are the norm), through JSON text and through serde's SeqDeserializer with and without a length hint; half are a queue's own JSON with 0..3 storage faults (record duplicated in place / at the end, dropped, swapped, foreign record spliced in, truncation, bit flip), in all four kind directions. Non-trivial = an input with a repeated item or at least one storage fault; distinct = digest of the case".into(),
+            rule: "two fifths of the cases are arbitrary well-typed pair sequences over universes of 1..12 items (so that repeats are the norm), through JSON text and through serde's SeqDeserializer with and without a length hint; two fifths are a queue's own JSON with 0..3 storage faults (record duplicated in place / at the end, dropped, swapped, foreign record spliced in, truncation, bit flip), in all four kind directions; one fifth are length-prefixed binary images (the stored count is what the deserializer reports as its length hint) with 0..2 faults: count field overwritten or bit-flipped, truncation, bit flips anywhere. Non-trivial = an input with a repeated item or at least one storage fault; distinct = digest of the case".into(),
             real: REAL.to_vec(),
             stubbed: STUBBED.to_vec(),
-            assumptions: vec!["hostile length hints of binary formats are outside the statement (JSON and serde sequences only)".into(), "sampling, not proof".into()],
-            fault_kinds: vec!["record duplication", "record loss", "record reordering", "foreign record spliced in", "truncation", "bit flip", "missing length hint"],
+            assumptions: vec!["the length-prefixed binary format is a stub of this harness (u64 count reported as SeqAccess::size_hint, 12-byte records), standing in for bincode / MessagePack-style formats, which are not in the cargo cache".into(), "sampling, not proof".into()],
+            fault_kinds: vec!["record duplication", "record loss", "record reordering", "foreign record spliced in", "truncation", "bit flip", "missing length hint", "count field overwritten", "count field bit flip"],
             exhaustive_note: None,
         }
     }
@@ -323,7 +637,41 @@ impl Engine for SerdeEngine {
             2 => 0,
             _ => r.range(-5, 5) as i32,
         };
-        let input = if r.chance(1, 2) {
+        let which = r.below(5);
+        let input = if which == 4 {
+            let n = match r.below(6) {
+                0 => 0,
+                1 => 1,
+                _ => r.usize(24),
+            };
+            let pairs: Vec<(u64, i32)> = (0..n).map(|i| (r.below(universe + 4) | ((i as u64 + 1) << 32), prio(&mut r))).collect();
+            let nf = r.usize(3);
+            let faults: Vec<FrameFault> = (0..nf)
+                .map(|_| match r.below(8) {
+                    0 | 1 => FrameFault::Count(match r.below(10) {
+                        0 => 0,
+                        1 => (n as u64).saturating_sub(1),
+                        2 => n as u64 + 1,
+                        3 => 2 * n as u64 + 3,
+                        4 => 1 << 16,
+                        5 => (1 << 31) + r.below(4),
+                        6 => 1 << (33 + r.below(20)),
+                        7 => u64::MAX >> r.below(6),
+                        8 => u64::MAX,
+                        _ => r.next(),
+                    }),
+                    2 | 3 => FrameFault::CountBit(r.below(64) as u8),
+                    4 => FrameFault::Truncate(r.usize(40)),
+                    _ => FrameFault::BitFlip(r.usize(4096), r.below(8) as u8),
+                })
+                .collect();
+            let src = match r.below(3) {
+                0 => None,
+                1 => Some(Kind::Pq),
+                _ => Some(Kind::Dpq),
+            };
+            Input::Framed { pairs, faults, src }
+        } else if which < 2 {
             let n = match r.below(6) {
                 0 => 0,
                 1 => 1,
@@ -368,6 +716,38 @@ impl Engine for SerdeEngine {
                 let n0 = ids.len();
                 ids.dedup();
                 ids.len() < n0
+            }
+            Input::Framed { pairs, faults, src } => {
+                acc.bump("probes", if src.is_some() { "via_LengthPrefixedBinary_written_by_the_queue" } else { "via_LengthPrefixedBinary_raw_pairs" }, 1);
+                for f in faults {
+                    let n = match f {
+                        FrameFault::Count(_) => "count_field_overwritten",
+                        FrameFault::CountBit(_) => "count_field_bit_flip",
+                        FrameFault::Truncate(_) => "truncation",
+                        FrameFault::BitFlip(..) => "bit_flip",
+                    };
+                    acc.bump("faults", n, 1);
+                }
+                let mut shown = pairs.clone();
+                if src.is_some() {
+                    let mut seen = std::collections::BTreeSet::new();
+                    shown.retain(|x| seen.insert(x.0 as u32));
+                }
+                if let Some((c, recs)) = frame_parse(&frame_image(&shown, faults)) {
+                    let cls = if c == recs.len() as u64 {
+                        "framed_count_exact"
+                    } else if c < recs.len() as u64 {
+                        "framed_count_below_records_present"
+                    } else if c < 1 << 20 {
+                        "framed_count_above_records_present"
+                    } else if c < 1 << 48 {
+                        "framed_count_huge"
+                    } else {
+                        "framed_count_beyond_isize_max_bytes"
+                    };
+                    acc.bump("probes", cls, 1);
+                }
+                !faults.is_empty()
             }
             Input::Mutated { faults, .. } => {
                 for f in faults {
@@ -426,6 +806,44 @@ impl Engine for SerdeEngine {
                 }
                 if *via != Via::Json {
                     out.push(Input::Pairs { pairs: pairs.clone(), via: Via::Json });
+                }
+            }
+            Input::Framed { pairs, faults, src } => {
+                let src = *src;
+                for i in 0..faults.len() {
+                    let mut f = faults.clone();
+                    f.remove(i);
+                    out.push(Input::Framed { pairs: pairs.clone(), faults: f, src });
+                }
+                let n = pairs.len();
+                if n > 1 {
+                    out.push(Input::Framed { pairs: pairs[..n / 2].to_vec(), faults: faults.clone(), src });
+                }
+                for i in 0..n {
+                    let mut v = pairs.clone();
+                    v.remove(i);
+                    out.push(Input::Framed { pairs: v, faults: faults.clone(), src });
+                }
+                for i in 0..n {
+                    if pairs[i].1 != 0 || pairs[i].0 >> 32 != 0 {
+                        let mut v = pairs.clone();
+                        v[i] = (v[i].0 & 0xffff_ffff, 0);
+                        out.push(Input::Framed { pairs: v, faults: faults.clone(), src });
+                    }
+                }
+                for i in 0..faults.len() {
+                    if let FrameFault::CountBit(b) = faults[i] {
+                        let mut f = faults.clone();
+                        f[i] = FrameFault::Count(pairs.len() as u64 ^ (1 << (b % 64)));
+                        out.push(Input::Framed { pairs: pairs.clone(), faults: f, src });
+                    }
+                    if let FrameFault::Count(c) = faults[i] {
+                        if c != u64::MAX {
+                            let mut f = faults.clone();
+                            f[i] = FrameFault::Count(u64::MAX);
+                            out.push(Input::Framed { pairs: pairs.clone(), faults: f, src });
+                        }
+                    }
                 }
             }
             Input::Mutated { pairs, src, faults } => {
